@@ -4,7 +4,8 @@
 Require Import Model.Bytes Model.FieldDef Gen.FieldTable Model.Fields Model.Policy Model.Validate Model.Spill
                Model.Stream Model.HeaderParse Model.Digest Model.Record.
 Require Import Proofs.BytesProofs Proofs.FieldsProofs Proofs.NormalizeProofs Proofs.DecimalProofs
-               Proofs.GetSetProofs Proofs.ValidateProofs Proofs.RecordProofs Proofs.BuildProofs.
+               Proofs.GetSetProofs Proofs.ValidateProofs Proofs.RecordProofs Proofs.BuildProofs
+               Proofs.PolicyProofs Proofs.SyncProofs Proofs.MonoProofs Proofs.TrimProofs Proofs.HeaderProofs Proofs.RoundTripProofs.
 From Coq Require Import Lia.
 Local Open Scope N_scope.
 
@@ -336,5 +337,217 @@ Proof.
     apply accepted_any_policy; try assumption. rewrite HR4, HR3. exact HRne.
 Qed.
 
+
+(** ** block stage, for records without digest fields: what the strict builder's parseBlock made
+    of the content, the reader's parseBlock makes of it again, under every syntax policy and
+    without finding *)
+
+Lemma parse_block_reader_agrees bo o rt hs content fnd blk bd pd fnd1 d1 :
+  o_syntax bo = Fail -> (o_block bo = Fail \/ o_block o = Ignore) ->
+  o_skip_parse o = o_skip_parse bo ->
+  m_has n_block_digest hs = false -> m_has n_payload_digest hs = false ->
+  new_digest (o_alg o) (o_enc o) = Some d1 ->
+  parse_block bo rt hs content fnd = Ok (hs, blk, bd, pd) fnd1 ->
+  exists bd' pd', parse_block o rt hs content [] = Ok (hs, blk, bd', pd') [] /\ d_fed bd' = d_fed d1 ++ raw_bytes blk /\ d_hash bd' = d_hash d1 /\
+                  (forall p, pd' = Some p -> d_hash p = d_hash d1).
+Proof.
+  intros Hsyn Hblk Hskip Hnb Hnp Hd1.
+  unfold Record.parse_block, Record.digest_from_field. rewrite Hnb, Hnp, Hd1, Hskip, Hsyn.
+  destruct (new_digest (o_alg bo) (o_enc bo)) as [d0|]; [|intros HH; discriminate].
+  cbv zeta.
+  destruct (o_skip_parse bo).
+  { intros HH; inversion HH; subst. eexists; eexists; split; [reflexivity|]. unfold raw_bytes; cbn [bh bb d_fed d_hash feed app].
+    repeat split; try reflexivity. intros p Hp. destruct (rt =? 4); inversion Hp; reflexivity. }
+  destruct (negb (N.land rt 206 =? 0) && _).
+  - (* http *)
+    destruct (length content <? 4)%nat; [intros HH; discriminate|].
+    destruct (http_header content) as [hb found].
+    destruct found; cbn [site]; [|intros HH; discriminate].
+    cbn [negb andb].
+    destruct (if has_prefix s_HTTP hb then http_resp_ok hb else http_req_ok hb) eqn:Eok.
+    + intros HH; inversion HH; subst. eexists; eexists; split; [reflexivity|]. unfold raw_bytes; cbn [bh bb d_fed d_hash feed].
+      repeat split; try reflexivity. intros p Hp; inversion Hp; reflexivity.
+    + destruct Hblk as [Hb|Hb].
+      * rewrite Hb. cbn [site]. intros HH; discriminate.
+      * rewrite Hb. destruct (o_block bo); cbn [site]; intros HH; inversion HH; subst;
+          eexists; eexists; (split; [reflexivity|]); unfold raw_bytes; cbn [bh bb d_fed d_hash feed];
+          repeat split; try reflexivity; intros p Hp; inversion Hp; reflexivity.
+  - destruct (rt =? 32).
+    { intros HH; inversion HH; subst. eexists; eexists; split; [reflexivity|]. unfold raw_bytes; cbn [bh bb d_fed d_hash feed app].
+      repeat split; try reflexivity. intros p Hp; discriminate. }
+    destruct (has_prefix s_app_warcfields _).
+    2: { intros HH; inversion HH; subst. eexists; eexists; split; [reflexivity|]. unfold raw_bytes; cbn [bh bb d_fed d_hash feed app].
+         repeat split; try reflexivity. intros p Hp. destruct (rt =? 4); inversion Hp; reflexivity. }
+    (* warc-fields: the inner parse under fail succeeded without finding, so it is the same under every policy *)
+    pose proof (parse_fields_quiet field_table uni_lower mime_dec Fail (mkst content TEOF) [] ltac:(discriminate)) as Hq.
+    destruct (HeaderParse.parse_fields field_table uni_lower mime_dec Fail (mkst content TEOF) []) as [[wf s'] bv|e bv] eqn:Ein;
+      cbn [findings_of] in Hq; subst bv; [|intros HH; discriminate].
+    rewrite (parse_fields_strict_ok_everywhere field_table uni_lower mime_dec (o_syntax o) _ _ Ein). cbn [findings_of].
+    intros HH; inversion HH; subst. eexists; eexists; split; [reflexivity|]. unfold raw_bytes; cbn [bh bb d_fed d_hash feed app].
+    repeat split; try reflexivity. intros p Hp; discriminate.
+Qed.
+
+(** ** decimal text is a clean header value *)
+Lemma digit_facts c : is_digit c = true -> (c =? 10) = false /\ (c =? 61) = false /\ is_sphtcrlf c = false.
+Proof.
+  unfold is_digit, is_sphtcrlf. intros Hd. apply andb_true_iff in Hd as [H1 H2].
+  apply N.leb_le in H1. apply N.leb_le in H2.
+  repeat split; repeat (apply orb_false_iff; split); apply N.eqb_neq; lia.
+Qed.
+
+Lemma forallb_last {A} (P : A -> bool) (l : list A) d : forallb P l = true -> l <> [] -> P (last l d) = true.
+Proof.
+  induction l as [|a t IH]; intros Hf Hne; [congruence|]. cbn [forallb] in Hf. apply andb_true_iff in Hf as [Ha Ht].
+  destruct t as [|b t']; [exact Ha|]. apply IH; [exact Ht|discriminate].
+Qed.
+
+Lemma no_byte_no_marker s : no_byte 61 s -> contains enc_marker s = false.
+Proof.
+  unfold no_byte, enc_marker. induction s as [|c t IH]; intros Hn; [reflexivity|].
+  cbn [forallb] in Hn. apply andb_true_iff in Hn as [Hc Ht]. cbn [contains has_prefix].
+  apply negb_true_iff in Hc. rewrite N.eqb_sym, Hc. cbn [andb orb]. apply IH. exact Ht.
+Qed.
+
+Lemma digits_clean d : forallb is_digit d = true -> d <> [] ->
+  no_byte LF d /\ edge_ok is_sphtcrlf d = true /\ no_byte 61 d.
+Proof.
+  intros Hd Hne. repeat split.
+  - unfold no_byte. apply forallb_forall. intros c Hc. rewrite forallb_forall in Hd.
+    destruct (digit_facts c (Hd c Hc)) as (E & _ & _). unfold LF. rewrite E. reflexivity.
+  - destruct d as [|c t]; [congruence|]. unfold edge_ok.
+    assert (H1 : is_digit c = true) by (cbn [forallb] in Hd; apply andb_true_iff in Hd as [Hx _]; exact Hx).
+    assert (H2 : is_digit (last (c :: t) 0) = true) by (apply forallb_last; [exact Hd|discriminate]).
+    destruct (digit_facts _ H1) as (_ & _ & E1). destruct (digit_facts _ H2) as (_ & _ & E2). rewrite E1, E2. reflexivity.
+  - unfold no_byte. apply forallb_forall. intros c Hc. rewrite forallb_forall in Hd.
+    destruct (digit_facts c (Hd c Hc)) as (_ & E & _). rewrite E. reflexivity.
+Qed.
+
+Lemma itoa_digits z : (0 <= z)%Z -> forallb is_digit (itoa z) = true /\ itoa z <> [].
+Proof.
+  intros Hz. destruct z as [|p|p]; [split; [reflexivity|discriminate]| |lia].
+  cbn [itoa]. unfold utoa. split; [apply digits_all_digits; reflexivity|apply digits_nonempty].
+Qed.
+
+Lemma content_length_field_wf z : (0 <= z)%Z -> wf_field tbl uni_lower (key n_content_length, itoa z).
+Proof.
+  intros Hz. destruct (itoa_digits z Hz) as [Hd Hne]. destruct (digits_clean _ Hd Hne) as (H1 & H2 & H3).
+  constructor; cbn [fst snd].
+  - apply (normalize_idem tbl gen_table_ok).
+  - vm_compute. reflexivity.
+  - vm_compute. reflexivity.
+  - exact H1.
+  - vm_compute. reflexivity.
+  - exact H2.
+  - apply no_byte_no_marker. apply no_byte_app. split; [vm_compute; reflexivity|].
+    apply no_byte_app. split; [vm_compute; reflexivity|exact H3].
+Qed.
+
+(** length and digest verification leaves a record alone when its length is truthful, no digest
+    is declared and none is to be added *)
+Lemma validate_digest_noop o rt hs b bd pd cached fnd :
+  o_add_digest o = false ->
+  m_get n_content_length hs = itoa (Z.of_nat (length (raw_bytes b))) ->
+  d_hash bd = [] -> (forall p, payload_obj rt b pd = Some p -> d_hash p = []) ->
+  validate_digest o rt hs b bd pd cached fnd = Ok hs fnd.
+Proof.
+  intros Hadd Hcl Hbd Hpd. unfold Record.validate_digest. cbv zeta.
+  rewrite Hcl, bytes_eqb_refl. cbn [negb]. rewrite Bool.andb_false_r.
+  unfold Record.check_digest at 1. rewrite Hbd, Hadd. cbn [andb].
+  destruct ((rt =? 32) || m_has n_segment_number hs); [reflexivity|].
+  fold (payload_obj rt b pd).
+  destruct (payload_obj rt b pd) as [p|] eqn:Ep; [|reflexivity].
+  assert (Hp : d_hash p = []) by (apply Hpd; reflexivity).
+  unfold Record.check_digest. rewrite Hp, Hadd. reflexivity.
+Qed.
+
+Notation valid_record := (valid_record tbl req uni_lower uni_upper time_ok ip_ok uri_ok wid_ok mime_dec H b32_decode b64_decode http_req_ok http_resp_ok).
+Notation parse_record := (parse_record tbl req uni_lower uni_upper time_ok ip_ok uri_ok wid_ok mime_dec H b32_decode b64_decode http_req_ok http_resp_ok).
+
+(** * C01, end to end, for records without digest fields: what the strict builder returns is a
+    valid record for every reader policy, hence survives marshal-then-parse unchanged *)
+Theorem built_record_is_valid_without_digests bo o vid rt0 hs content new_id r fnd hs_out d0 d1 :
+  (vid = 1 \/ vid = 2) -> canonical hs -> (forall f, In f hs -> wf_field tbl uni_lower f) ->
+  m_has n_content_length hs = false -> m_has n_block_digest hs = false -> m_has n_payload_digest hs = false ->
+  m_has n_record_id hs = true ->                (* the id is among the given fields *)
+  (rt0 = 0 \/ rt0 = rt_of hs) ->                (* the type given to the builder is the one its WARC-Type field names *)
+  o_spec bo = Fail -> o_unknown bo = Fail -> o_syntax bo = Fail ->
+  (o_block bo = Fail \/ o_block o = Ignore) ->
+  o_add_cl bo = true -> o_add_digest bo = false -> o_add_digest o = false -> o_fix_wfblock bo = false ->
+  o_skip_parse o = o_skip_parse bo ->
+  new_digest (o_alg bo) (o_enc bo) = Some d0 -> d_hash d0 = [] ->
+  new_digest (o_alg o) (o_enc o) = Some d1 -> d_hash d1 = [] ->
+  (Z.of_nat (length content) <= int64_max)%Z ->
+  build bo vid rt0 hs content new_id = (Ok r fnd, hs_out) ->
+  exists bd pd, valid_record o r bd pd.
+Proof.
+  intros Hvid HC Hwf Hcl Hbdf Hpdf Hid Hrt Hspec Hunk Hsyn Hblk Haddcl Hadd Haddo Hfix Hskip Hd0 Hh0 Hd1 Hh1 Hlen.
+  destruct (keys_distinct uni_lower) as (K1 & K2 & K3 & K4 & K5 & K6).
+  unfold Record.build. cbv zeta. rewrite Haddcl, Hspec, Hunk, Hid. cbn [negb]. rewrite Bool.andb_false_r, Hcl. cbn [negb andb].
+  set (hs2 := m_set n_content_length (itoa (Z.of_nat (length content))) hs).
+  assert (HC2 : canonical hs2) by (apply canon_set; exact HC).
+  assert (Hs : s_has (key n_content_length) hs = false) by (rewrite <- m_has_s_has; exact Hcl).
+  assert (Hset : hs2 = hs ++ [(key n_content_length, itoa (Z.of_nat (length content)))]).
+  { unfold hs2. rewrite m_set_spec. unfold Fields.key.
+    destruct (set_one_value_at_first_position (key n_content_length) (itoa (Z.of_nat (length content))) hs) as (_ & _ & H3 & _). apply H3. exact Hs. }
+  assert (Hcl2 : m_get n_content_length hs2 = itoa (Z.of_nat (length content))) by apply get_set_same.
+  assert (Hhas2 : m_has n_content_length hs2 = true) by apply (has_set_same tbl uni_lower).
+  assert (Hbd2 : m_has n_block_digest hs2 = false) by (unfold hs2; rewrite (has_set_other uni_lower); auto).
+  assert (Hpd2 : m_has n_payload_digest hs2 = false) by (unfold hs2; rewrite (has_set_other uni_lower); auto).
+  assert (HT2 : type_field uni_lower hs2 = type_field uni_lower hs).
+  { unfold hs2. rewrite type_field_set_absent; [reflexivity|exact Hcl|vm_compute; reflexivity]. }
+  destruct (validate_header Fail Fail vid hs2 []) as [[rt hs3] fnd0|e fnd0] eqn:Ev; [|intros HH; discriminate].
+  apply strict_ok_inv in Ev; [|exact HC2]. destruct Ev as (-> & -> & -> & HTne & HRne & HD2).
+  assert (Hrt2 : rt_of hs2 = rt_of hs) by (unfold ValidateProofs.rt_of; rewrite HT2; reflexivity).
+  set (rtb := if rt0 =? 0 then rt_of hs2 else rt0).
+  assert (Hrtb : rtb = rt_of hs2).
+  { unfold rtb. destruct Hrt as [->| ->]; [reflexivity|]. rewrite <- Hrt2. destruct (rt_of hs2 =? 0); reflexivity. }
+  destruct (parse_block bo rtb hs2 content []) as [[[[hs4 blk] bd] pd] fnd1|e fnd1] eqn:Ep; [|intros HH; discriminate].
+  destruct (parse_block_strict_keeps _ _ _ _ _ _ _ _ _ _ Hsyn Hfix Ep) as [-> Hraw0].
+  assert (Hdf : digest_from_field bo hs2 n_block_digest = Some d0 /\ digest_from_field bo hs2 n_payload_digest = Some d0).
+  { unfold Record.digest_from_field. rewrite Hbd2, Hpd2, Hd0. split; reflexivity. }
+  destruct Hdf as [Hdf1 Hdf2].
+  destruct (parse_block_shape uni_lower uni_upper time_ok ip_ok uri_ok wid_ok mime_dec H b32_decode b64_decode
+              http_req_ok http_resp_ok _ _ _ _ _ _ _ _ _ _ d0 d0 Hfix Hdf1 Hdf2 Ep) as (Hbd & Hpd & _).
+  assert (Hraw : m_get n_content_length hs2 = itoa (Z.of_nat (length (raw_bytes blk)))) by (rewrite Hraw0; exact Hcl2).
+  assert (Hbdh : d_hash bd = []) by (rewrite Hbd; exact Hh0).
+  assert (Hpobj : forall p, payload_obj rtb blk pd = Some p -> d_hash p = []).
+  { intros p Hp. unfold payload_obj in Hp. destruct (bk blk) eqn:Ek; try discriminate.
+    - destruct (rtb =? 4) eqn:E4; [|discriminate]. rewrite (Hpd eq_refl) in Hp. inversion Hp; subst. exact Hh0.
+    - rewrite Hpd in Hp. inversion Hp; subst. exact Hh0.
+    - rewrite Hpd in Hp. inversion Hp; subst. exact Hh0. }
+  rewrite (validate_digest_noop bo rtb hs2 blk bd pd true fnd1 Hadd Hraw Hbdh Hpobj).
+  intros HH. inversion HH; subst r fnd hs_out. clear HH.
+  destruct (parse_block_reader_agrees bo o rtb hs2 content [] blk bd pd fnd1 d1 Hsyn Hblk Hskip Hbd2 Hpd2 Hd1 Ep)
+    as (bd' & pd' & Epr & _ & Hbh' & Hph').
+  exists bd', pd'. constructor; cbn [r_vtxt r_vid r_type r_fields r_block].
+  - destruct Hvid as [->| ->]; [left|right]; split; reflexivity.
+  - intros f Hf. rewrite Hset in Hf. apply in_app_or in Hf as [Hf|[<-|[]]]; [apply Hwf; exact Hf|].
+    apply content_length_field_wf. lia.
+  - rewrite Hset. intros E. apply app_eq_nil in E as [_ E]. discriminate.
+  - rewrite Hrtb. apply accepted_any_policy; assumption.
+  - unfold Record.cl_value. rewrite Hhas2, Hcl2, atoi_value_itoa by lia. rewrite Hraw0. reflexivity.
+  - rewrite Hraw0. exact Epr.
+  - apply validate_digest_noop; [exact Haddo|exact Hraw|rewrite Hbh'; exact Hh1|].
+    intros p Hp. rewrite (Hph' p); [exact Hh1|]. unfold payload_obj in Hp.
+    destruct (bk blk); try discriminate; try exact Hp. destruct (rtb =? 4); [exact Hp|discriminate].
+Qed.
+
+Theorem built_record_round_trips_without_digests bo o vid rt0 hs content new_id r fnd hs_out d0 d1 rest tl :
+  (vid = 1 \/ vid = 2) -> canonical hs -> (forall f, In f hs -> wf_field tbl uni_lower f) ->
+  m_has n_content_length hs = false -> m_has n_block_digest hs = false -> m_has n_payload_digest hs = false ->
+  m_has n_record_id hs = true -> (rt0 = 0 \/ rt0 = rt_of hs) ->
+  o_spec bo = Fail -> o_unknown bo = Fail -> o_syntax bo = Fail ->
+  (o_block bo = Fail \/ o_block o = Ignore) ->
+  o_add_cl bo = true -> o_add_digest bo = false -> o_add_digest o = false -> o_fix_wfblock bo = false ->
+  o_skip_parse o = o_skip_parse bo ->
+  new_digest (o_alg bo) (o_enc bo) = Some d0 -> d_hash d0 = [] ->
+  new_digest (o_alg o) (o_enc o) = Some d1 -> d_hash d1 = [] ->
+  (Z.of_nat (length content) <= int64_max)%Z ->
+  build bo vid rt0 hs content new_id = (Ok r fnd, hs_out) ->
+  parse_record o (mkst (marshal r ++ rest) tl) [] = URec r None [] (mkst rest tl).
+Proof.
+  intros. destruct (built_record_is_valid_without_digests bo o vid rt0 hs content new_id r fnd hs_out d0 d1) as (bd & pd & Hv); try assumption.
+  eapply marshal_then_parse. exact Hv.
+Qed.
 
 End BuiltValid.
